@@ -49,8 +49,6 @@ import (
 	tokwebhook "github.com/kubewharf/kubegateway/pkg/gateway/authentication/token/webhook"
 	sarwebhook "github.com/kubewharf/kubegateway/pkg/gateway/authorization/webhook"
 
-	gatewayapp "github.com/kubewharf/kubegateway/cmd/kube-gateway/app"
-	proxyv1alpha1 "github.com/kubewharf/kubegateway/pkg/apis/proxy/v1alpha1"
 	"github.com/kubewharf/kubegateway/pkg/clusters"
 	"github.com/kubewharf/kubegateway/pkg/gateway/endpoints/filters"
 	"github.com/kubewharf/kubegateway/pkg/gateway/endpoints/request"
@@ -83,7 +81,10 @@ func ttlDur(ticks int) time.Duration {
 type epRec struct {
 	inst int
 	name string // raw
-	info *clusters.EndpointInfo
+	info *clusters.EndpointInfo // nil in the reduced build
+	// reduced build only: the harness's own endpoint state and client
+	healthy, disabled bool
+	client            kubernetes.Interface
 }
 
 type instRec struct {
@@ -190,7 +191,7 @@ func (p *provider) ClientFor(host string) (*clusters.ClusterInfo, kubernetes.Int
 			w.runMids(top.m.Mid2)
 		}
 	}
-	c, client, err := w.mgr.ClientFor(host) // the REAL manager.ClientFor
+	c, client, err := w.clientFor(host) // the REAL manager.ClientFor (full.go; reduced.go when the endpoint shim is gone)
 	if top != nil {
 		top.lastPick = nil
 		if err == nil && client != nil {
@@ -199,7 +200,7 @@ func (p *provider) ClientFor(host string) (*clusters.ClusterInfo, kubernetes.Int
 				if id, ok := w.byPtr[c]; ok {
 					inst = id
 				}
-				top.lastPick = &pick{inst: inst, ep: ep, ready: ep.info.IsReady()}
+				top.lastPick = &pick{inst: inst, ep: ep, ready: ep.ready()}
 				if top.picks == nil {
 					top.picks = map[*epRec]*pick{}
 				}
@@ -413,8 +414,7 @@ func (w *world) inst(id int) *instRec {
 	}
 	info := clusters.NewEmptyClusterInfo(w.instName(id), nil, nil, "", nil)
 	// a catch-all dispatch policy, so that the real dispatcher finds a rule for every request
-	clusters.VerifC12SetDispatchPolicies(info, []proxyv1alpha1.DispatchPolicy{{Rules: []proxyv1alpha1.DispatchPolicyRule{{
-		Verbs: []string{"*"}, APIGroups: []string{"*"}, Resources: []string{"*"}, NonResourceURLs: []string{"*"}}}}})
+	setPolicies(info)
 	r := &instRec{id: id, info: info, eps: map[string]*epRec{}}
 	w.insts[id] = r
 	w.byPtr[info] = id
@@ -576,8 +576,7 @@ func (u *upstreamStub) RoundTrip(req *http.Request) (*http.Response, error) {
 func (w *world) newEndpoint(i *instRec, name string, healthy, disabled bool) *epRec {
 	ep := &epRec{inst: i.id, name: name}
 	cs := &stubClient{Clientset: fake.NewSimpleClientset(), w: w, ep: ep}
-	ep.info = clusters.VerifC12AddEndpoint(i.info, name, cs, healthy, disabled)
-	ep.info.ProxyTransport = &upstreamStub{w: w, ep: ep} // what the dispatcher proxies through: records who received the request
+	attachEndpoint(w, i, ep, cs, healthy, disabled)
 	i.eps[name] = ep
 	w.byClient[kubernetes.Interface(cs)] = ep
 	return ep
@@ -614,8 +613,7 @@ func (w *world) doEv(e *Ev) {
 		i := w.inst(e.Inst)
 		name := rig.UnHex(e.Name)
 		if ep, ok := i.eps[name]; ok {
-			ep.info.UpdateStatus(e.Healthy, "verif", "")
-			ep.info.SetDisabled(e.Disabled)
+			ep.set(e.Healthy, e.Disabled)
 		} else {
 			w.newEndpoint(i, name, e.Healthy, e.Disabled)
 		}
@@ -623,7 +621,7 @@ func (w *world) doEv(e *Ev) {
 		i := w.inst(e.Inst)
 		name := rig.UnHex(e.Name)
 		if _, ok := i.eps[name]; ok {
-			i.info.Endpoints.LoadAndDelete(name)
+			detachEndpoint(i, name)
 			delete(i.eps, name)
 		}
 	case "dropStopped":
@@ -649,14 +647,29 @@ func (w *world) cacheKeys(obj interface{}) (keys []ckey, supported bool) {
 	if v.Kind() != reflect.Ptr || v.Elem().Kind() != reflect.Struct {
 		return nil, false
 	}
-	f := v.Elem().FieldByName("caches")
-	if !f.IsValid() || f.Type() != reflect.TypeOf(sync.Map{}) || !f.CanAddr() {
+	st := v.Elem()
+	// the shared table of caches, found by role: the one field that is a sync.Map, or a map whose key is a string or a
+	// struct made of a string and/or a pointer; a map is read under every lock the struct carries
+	var table reflect.Value
+	n := 0
+	for i := 0; i < st.NumField(); i++ {
+		f := st.Field(i)
+		if f.Type() == reflect.TypeOf(sync.Map{}) || (f.Kind() == reflect.Map && keyShaped(f.Type().Key())) {
+			table = f
+			n++
+		}
+	}
+	if n != 1 { // several candidates: the one called `caches`, if any
+		table = st.FieldByName("caches")
+		if !table.IsValid() {
+			return nil, false
+		}
+	}
+	if !table.CanAddr() {
 		return nil, false
 	}
-	m := (*sync.Map)(unsafe.Pointer(f.UnsafeAddr()))
 	ok := true
-	m.Range(func(k, _ interface{}) bool {
-		kv := reflect.ValueOf(k)
+	add := func(kv reflect.Value) {
 		ck := ckey{Inst: -1}
 		switch kv.Kind() {
 		case reflect.String:
@@ -681,8 +694,42 @@ func (w *world) cacheKeys(obj interface{}) (keys []ckey, supported bool) {
 			ok = false
 		}
 		keys = append(keys, ck)
-		return true
-	})
+	}
+	if table.Kind() == reflect.Map {
+		var unlock []func()
+		for i := 0; i < st.NumField(); i++ {
+			f := st.Field(i)
+			if !f.CanAddr() {
+				continue
+			}
+			switch f.Type() {
+			case reflect.TypeOf(sync.RWMutex{}):
+				m := (*sync.RWMutex)(unsafe.Pointer(f.UnsafeAddr()))
+				m.RLock()
+				unlock = append(unlock, m.RUnlock)
+			case reflect.TypeOf(sync.Mutex{}):
+				m := (*sync.Mutex)(unsafe.Pointer(f.UnsafeAddr()))
+				m.Lock()
+				unlock = append(unlock, m.Unlock)
+			}
+		}
+		if len(unlock) == 0 {
+			return nil, false // an unguarded map cannot be read while clean-up goroutines may write it
+		}
+		it := table.MapRange()
+		for it.Next() {
+			add(it.Key())
+		}
+		for _, u := range unlock {
+			u()
+		}
+	} else {
+		m := (*sync.Map)(unsafe.Pointer(table.UnsafeAddr()))
+		m.Range(func(k, _ interface{}) bool {
+			add(reflect.ValueOf(k))
+			return true
+		})
+	}
 	sort.Slice(keys, func(i, j int) bool {
 		if keys[i].Host != keys[j].Host {
 			return keys[i].Host < keys[j].Host
@@ -690,6 +737,21 @@ func (w *world) cacheKeys(obj interface{}) (keys []ckey, supported bool) {
 		return keys[i].Inst < keys[j].Inst
 	})
 	return keys, ok
+}
+
+func keyShaped(t reflect.Type) bool {
+	switch t.Kind() {
+	case reflect.String:
+		return true
+	case reflect.Struct:
+		for i := 0; i < t.NumField(); i++ {
+			if k := t.Field(i).Type.Kind(); k != reflect.String && k != reflect.Ptr {
+				return false
+			}
+		}
+		return t.NumField() > 0
+	}
+	return false
 }
 
 var dropBroken bool // a clean-up was not observed within the timeout once: do not wait again in this process
@@ -738,12 +800,7 @@ func (w *world) resolve(host string) (own int, ready bool) {
 	if id, ok := w.byPtr[c]; ok {
 		own = id
 	}
-	c.Endpoints.Range(func(_ string, e *clusters.EndpointInfo) bool {
-		if e.IsReady() {
-			ready = true
-		}
-		return true
-	})
+	ready = w.instReady(c)
 	return own, ready
 }
 
@@ -834,7 +891,7 @@ func errKind(err error) string {
 	case strings.Contains(err.Error(), "both allow and deny"):
 		return "both"
 	}
-	return "other:" + err.Error()
+	return "other" // a refusal the model does not know (the judge accepts refusals; the answer differs from the model's)
 }
 
 // requestCtx builds the request context the way the gateway's filter chain does: the REAL
@@ -1152,7 +1209,7 @@ func (w *world) chain() http.Handler {
 		c.Authentication.Authenticator = bearertoken.New(recToken{})
 		c.Authorization.Authorizer = recAuthz{}
 		notProxied := http.HandlerFunc(func(rw http.ResponseWriter, _ *http.Request) { rw.WriteHeader(http.StatusNotFound) })
-		shippedChain = gatewayapp.VerifC12BuildProxyHandlerChain(liveManager{}, notProxied, c)
+		shippedChain = buildShippedChain(liveManager{}, notProxied, c)
 	})
 	return shippedChain
 }
@@ -1161,6 +1218,9 @@ func (w *world) chain() http.Handler {
 // included), with scheduled events at every stage boundary. The endpoints' ProxyTransport records which cluster instance
 // receives the request.
 func (w *world) doPipe(m *Macro) {
+	if !pipesSupported {
+		return
+	}
 	t := w.cur
 	w.mu.Lock()
 	w.pipes++
